@@ -52,12 +52,10 @@ FINDINGS = [
      "(import m []) compiles to ImportFrom(names=[]); compile() raises ValueError"),
     ("C10-annotate-non-name", r"^compile:SystemError:invalid node type \(N\) for annotated assignment$", "annotate_bad_target",
      "(annotate [] x), (setv #^ int [a b] 1): AnnAssign with a list/tuple target; compile() raises SystemError"),
-    ("C10-form-without-expression", r"^compile:ValueError:(field '_' is required for (FormattedValue|Interpolation|comprehension|"
-     r"ListComp|SetComp|DictComp|GeneratorExp)|None disallowed in expression list|invalid integer value: None)$",
-     "has_form_without_expr",
-     "a form that compiles to statements only or to nothing ((do), (break), (del), (import), ...) used as an f-string value, "
-     "comprehension iterable / condition / element, or match guard: the handler stores Result.expr (None) instead of "
-     "force_expr, or positions a node by it (lineno=None); compile() raises ValueError"),
+    ("C10-position-from-empty-result", r"^compile:ValueError:invalid integer value: None$", "has_empty_form",
+     "(for [x (do)] 1), (for [[a b] (pragma)]): compile_comprehension positions the For node by the Result of the iterable "
+     "(asty.For(v[1], ...)); a form that compiles to nothing gives an empty Result whose lineno is None; compile() raises "
+     "ValueError (the other uses of a value-less form were fixed by 4ee8730)"),
     ("C10-empty-body", r"^compile:ValueError:empty body on \w+$", "has_empty_form",
      "(for [x y] (require)): body forms that compile to no statements leave For/AsyncFor/If with an empty statement list; "
      "compile() raises ValueError (the try/finally case was fixed by c90ef71)"),
@@ -77,6 +75,8 @@ FINDINGS = [
 
 
 FIXED = [
+    ("C10-form-without-expression", "4ee8730", "a statement-only or empty form as f-string value, comprehension iterable/condition/element or match "
+     "guard: the handler stored Result.expr (None) (ValueError from compile()); now force_expr"),
     ("C10-bare-except-star-crash", "c7c0bc3", "(try ... (except* [] ...)): TryStar with a handler without type; evaluated at compile time it killed the compiler process"),
     ("C10-falsy-literal-truth-test", "f69d795", "(defclass :tp [#^ 0 T] C): a falsy type-parameter bound reached the AST uncompiled (TypeError from compile())"),
     ("C10-matchor-short", "61b21a1", "(match x (|) y): MatchOr with fewer than two alternatives (ValueError from compile()); now a syntax error"),
